@@ -75,6 +75,21 @@ def is_node_visible(
     return True
 
 
+def nearest_visible_ancestor(
+    node_id: str,
+    flat_graph: nx.DiGraph,
+    expansion_state: dict[str, bool],
+) -> str:
+    """Walk up from node_id to the closest node that is visible (itself if visible)."""
+    current = node_id
+    while not is_node_visible(current, flat_graph, expansion_state):
+        parent_id = flat_graph.nodes[current].get("parent")
+        if parent_id is None:
+            break
+        current = parent_id
+    return current
+
+
 def get_nesting_depth(node_id: str, flat_graph: nx.DiGraph) -> int:
     """Get the nesting depth of a node (0 = root level)."""
     depth = 0
